@@ -92,7 +92,8 @@ impl EntropyNormalizer {
     
     /// Calculate entropy of frequency distribution
     pub fn calculate_entropy(&self, frequencies: &[u32]) -> f64 {
-        let total = frequencies.iter().sum::<u32>() as f64;
+        // Summed in u64: a table read from untrusted bytes may exceed u32::MAX in total
+        let total = frequencies.iter().map(|&f| f as u64).sum::<u64>() as f64;
         if total == 0.0 {
             return 0.0;
         }
@@ -112,7 +113,8 @@ impl EntropyNormalizer {
         frequencies: &[u32], 
         target_total: u32
     ) -> Result<Vec<u32>> {
-        let total_freq = frequencies.iter().sum::<u32>() as f64;
+        // Summed in u64: a table read from untrusted bytes may exceed u32::MAX in total
+        let total_freq = frequencies.iter().map(|&f| f as u64).sum::<u64>() as f64;
         if total_freq == 0.0 {
             return Err(ZiporaError::invalid_data("No frequencies to normalize"));
         }
@@ -403,7 +405,10 @@ impl FseTable {
         // Use fixed TF_SHIFT constant for optimal performance, regardless of table_log
         const TF_SHIFT: u8 = 12;
         let table_size = 1usize << TF_SHIFT;  // Always use TF_SHIFT for table size
-        let total_freq: u32 = frequencies.iter().sum();
+        // The table may come from untrusted bytes: a total beyond u32::MAX is refused, not wrapped
+        let total_freq: u32 = frequencies.iter()
+            .try_fold(0u32, |acc, &f| acc.checked_add(f))
+            .ok_or_else(|| ZiporaError::invalid_data("Frequency table total overflows"))?;
         
         if total_freq == 0 {
             return Err(ZiporaError::invalid_data("Total frequency is zero"));
